@@ -12,6 +12,7 @@ From Verif Require Proofs.TypingProofs Proofs.LinkLibProofs.       (* bld-link: 
    record the dependencies on the generated files; imported mid-file, where the names are wanted *)
 From Verif Require Model.PyMini Model.PrimsApi Model.PrimsCompiler Gen.SrcLookup Proofs.SrcLookup Gen.SrcCompiler
   Proofs.SrcCompiler Proofs.SrcCompilerGroup Proofs.SrcCompilerWalk.
+From Verif Require Model.PrimsSelect Gen.SrcSelect Proofs.SrcSelect.      (* bld-compiler3: Compiler._select *)
 Open Scope string_scope.
 Open Scope list_scope.
 Open Scope nat_scope.
@@ -547,3 +548,127 @@ Print Assumptions C05_source_check_aggregates.
    is bounded (an operand is cast away from `object` at most once, so at most three passes) but the bound rests on what
    the cast functions return (a non-object dtype), not on the shape of the loop - a structural check in the translator
    cannot establish it, so it is not unrolled. *)
+
+(* ---- bld-compiler3: the statement level.  Compiler._select (Gen/SrcSelect.v, regenerated from the live source on every
+   run) under the state-threading reading of `self.m(..)` (translator rule K12, Model/PrimsSelect.v): every call of a
+   method that may assign self.table receives the table and returns the table it leaves behind next to its value. *)
+Module SS := Verif.Proofs.SrcSelect.
+Import Verif.Model.PrimsSelect.
+
+(* THE FLOW, literally: for ANY tables t1..t5 the five sub-compilations leave behind and any results they return
+   (an error value = a raised CompilationError), interpreting the body of _select gives SS.p_select: FROM, then targets,
+   then WHERE; an aggregate in WHERE is rejected; the condition is c_from, c_where or EvalAnd([c_from, c_where]) in THAT
+   order; GROUP BY on the targets, ORDER BY on targets ++ new; aggregates in ORDER BY of a non-aggregate query and
+   non-aggregates outside the group indexes are rejected; the query is built over the table the last sub-compilation
+   left (t5); PIVOT BY last; the FIRST failing step decides the error; and the receiver's attributes are unchanged,
+   self.table being put back to t0. *)
+Theorem C05_source_select_run :
+  forall (call_ref : nat -> list pv -> pv) (tbl : nat -> Compile.cnode) (kids : nat -> list nat)
+         (mro : string -> list string) (msg : string -> list pv -> pv) (updatable : pv -> bool)
+         (upd : pv -> pv -> pv -> pv -> pv) (t0 t1 t2 t3 t4 t5 tg fc wc gb ob pb lim dist : pv) (kF kT kC kG kO kP : nat)
+         (rest : env) (rfrom : Compile.result (option nat) Compile.cerr) (rtargets : Compile.result (list ptarget) Compile.cerr)
+         (rwhere : Compile.result (option nat) Compile.cerr) (fgroup : list ptarget -> Compile.result SS.gres Compile.cerr)
+         (forder : list ptarget -> Compile.result SS.ores Compile.cerr)
+         (fpivot : list ptarget -> option (list nat) -> Compile.result (option (nat * nat)) Compile.cerr)
+         (and_id : nat -> nat -> nat),
+  call_ref kF [t0; fc] = SS.enc_res (fun cf => PTuple [t1; popt nref cf]) rfrom ->
+  call_ref kT [t1; tg] = SS.enc_res (fun pts => PTuple [t2; enc_targets pts]) rtargets ->
+  call_ref kC [t2; wc] = SS.enc_res (fun ow => PTuple [t3; popt nref ow]) rwhere ->
+  (forall i, call_ref SS.ka [nref i] = PBool (Compile.has_agg (tbl i))) ->
+  (forall f w, call_ref SS.kand [PList [nref f; nref w]] = nref (and_id f w)) ->
+  (forall pts, call_ref kG [t3; gb; enc_targets pts] =
+     SS.enc_res (fun r : SS.gres => match r with (new, gi, hi) =>
+                   PTuple [t4; PTuple [enc_targets new; popt enc_nats gi; popt enc_nat hi]] end) (fgroup pts)) ->
+  (forall pts, call_ref kO [t4; ob; enc_targets pts] =
+     SS.enc_res (fun r : SS.ores => match r with (new, os) => PTuple [t5; PTuple [enc_targets new; popt enc_ospec os]] end)
+                (forder pts)) ->
+  (forall pts gi, call_ref kP [pb; enc_targets pts; popt enc_nats gi] =
+     SS.enc_res (popt (fun p : nat * nat => enc_nats [fst p; snd p])) (fpivot pts gi)) ->
+  call_method call_ref (prim_select tbl kids mro msg updatable upd) Verif.Gen.SrcSelect.compile_select
+    (SS.flds kF kT kC kG kO kP rest t0) [SS.SEL tg fc wc gb ob pb lim dist] =
+  match SS.p_select tbl rfrom rtargets rwhere fgroup forder fpivot and_id with
+  | Compile.Ok q => PyMini.Ok (SS.flds kF kT kC kG kO kP rest t0, SS.enc_pquery lim dist t5 q)
+  | Compile.Err e => Exc (CompErr e)
+  end.
+Proof. exact SS.select_run. Qed.
+Print Assumptions C05_source_select_run.
+
+(* the refs table of the generated file gives is_aggregate and EvalAnd the numbers the statement uses, and the
+   threaded state is exactly self.table *)
+Theorem C05_source_select_refs :
+  ref_of Verif.Gen.SrcSelect.refs "beanquery.compiler.is_aggregate" = Some SS.ka
+  /\ ref_of Verif.Gen.SrcSelect.refs "beanquery.query_compile.EvalAnd" = Some SS.kand
+  /\ Verif.Gen.SrcSelect.threaded_state = ["table"].
+Proof. exact (conj (proj1 SS.refs_checked) (conj (proj2 SS.refs_checked) SS.threaded_state_is_table)). Qed.
+Print Assumptions C05_source_select_refs.
+
+(* AGAINST THE MODEL: when the opaque callables return what Compile.compile_group_by / compile_order_by /
+   compile_pivot_by return on the same targets (C05_source_compile_group_by / _order_by / _pivot_by are the ties of
+   those methods), EvalAnd builds the conjunction node, and the sub-compilations leave the table of the FROM clause in
+   place (C08_source_table_restored, by induction over the nesting), _select returns the encoding of the query
+   Compile.finish_select builds - same targets, WHERE condition, group indexes, HAVING index, order spec, pivots - or
+   raises the CompilationError the model reports. *)
+Theorem C05_source_select_flow :
+  forall (call_ref : nat -> list pv -> pv) (tbl : nat -> Compile.cnode) (kids : nat -> list nat)
+         (mro : string -> list string) (msg : string -> list pv -> pv) (updatable : pv -> bool)
+         (upd : pv -> pv -> pv -> pv -> pv) (t0 t1 tg fc wc gb ob pb lim dist : pv) (kF kT kC kG kO kP : nat)
+         (rest : env) (cf : option nat) (pts : list ptarget) (rwhere : Compile.result (option nat) Compile.cerr)
+         (fgroup : list ptarget -> Compile.result SS.gres Compile.cerr)
+         (forder : list ptarget -> Compile.result SS.ores Compile.cerr)
+         (fpivot : list ptarget -> option (list nat) -> Compile.result (option (nat * nat)) Compile.cerr)
+         (and_id : nat -> nat -> nat)
+         (tb : Compile.table) (grp : option (list Compile.kref * option Compile.rnode)) (ord : list (Compile.kref * bool))
+         (piv : option (Compile.pcol * Compile.pcol)) (mlim : option Z) (mdist : bool),
+  call_ref kF [t0; fc] = PTuple [t1; popt nref cf] ->
+  call_ref kT [t1; tg] = PTuple [t1; enc_targets pts] ->
+  call_ref kC [t1; wc] = SS.enc_res (fun ow => PTuple [t1; popt nref ow]) rwhere ->
+  (forall i, call_ref SS.ka [nref i] = PBool (Compile.has_agg (tbl i))) ->
+  (forall f w, call_ref SS.kand [PList [nref f; nref w]] = nref (and_id f w)) ->
+  (forall f w, cf = Some f -> rwhere = Compile.Ok (Some w) -> tbl (and_id f w) = Compile.NAnd [tbl f; tbl w]) ->
+  (forall pts, call_ref kG [t1; gb; enc_targets pts] =
+     SS.enc_res (fun r : SS.gres => match r with (new, gi, hi) =>
+                   PTuple [t1; PTuple [enc_targets new; popt enc_nats gi; popt enc_nat hi]] end) (fgroup pts)) ->
+  (forall pts, Compile.compile_group_by (map (SS.T tbl) pts) grp =
+     match fgroup pts with
+     | Compile.Ok (new, gi, hi) => Compile.Ok (map (SS.T tbl) (pts ++ new), gi, hi)
+     | Compile.Err e => Compile.Err e
+     end) ->
+  (forall pts, call_ref kO [t1; ob; enc_targets pts] =
+     SS.enc_res (fun r : SS.ores => match r with (new, os) => PTuple [t1; PTuple [enc_targets new; popt enc_ospec os]] end)
+                (forder pts)) ->
+  (forall pts, Compile.compile_order_by (map (SS.T tbl) pts) ord =
+     match forder pts with
+     | Compile.Ok (new, os) => Compile.Ok (map (SS.T tbl) (pts ++ new), os)
+     | Compile.Err e => Compile.Err e
+     end) ->
+  (forall pts gi, call_ref kP [pb; enc_targets pts; popt enc_nats gi] =
+     SS.enc_res (popt (fun p : nat * nat => enc_nats [fst p; snd p])) (fpivot pts gi)) ->
+  (forall pts gi, Compile.compile_pivot_by (map (SS.T tbl) pts) gi piv = fpivot pts gi) ->
+  match Compile.finish_select tb (option_map tbl cf) (map (SS.T tbl) pts) (SS.wh_of tbl rwhere) grp ord piv mlim mdist with
+  | Compile.Ok q =>
+      exists pq, call_method call_ref (prim_select tbl kids mro msg updatable upd) Verif.Gen.SrcSelect.compile_select
+                   (SS.flds kF kT kC kG kO kP rest t0) [SS.SEL tg fc wc gb ob pb lim dist] =
+                 PyMini.Ok (SS.flds kF kT kC kG kO kP rest t0, SS.enc_pquery lim dist t1 pq)
+                 /\ SS.T_query tbl tb mlim mdist pq = q
+  | Compile.Err e =>
+      call_method call_ref (prim_select tbl kids mro msg updatable upd) Verif.Gen.SrcSelect.compile_select
+        (SS.flds kF kT kC kG kO kP rest t0) [SS.SEL tg fc wc gb ob pb lim dist] = Exc (CompErr e)
+  end.
+Proof. exact SS.select_flow_source. Qed.
+Print Assumptions C05_source_select_flow.
+
+(* the hypotheses of C05_source_select_flow are satisfiable: SELECT a FROM <a> WHERE <b>, for every list of targets *)
+Example C05_source_select_flow_hypotheses_satisfiable :
+  SS.ex_call 10%nat [PNone; PNone] = PTuple [PNone; popt nref (Some 1%nat)]
+  /\ (forall i, SS.ex_call SS.ka [nref i] = PBool (Compile.has_agg (SS.ex_tbl i)))
+  /\ SS.ex_tbl 3 = Compile.NAnd [SS.ex_tbl 1; SS.ex_tbl 2]
+  /\ (forall pts, Compile.compile_group_by (map (SS.T SS.ex_tbl) pts) None =
+        match SS.ex_group (map SS.tagg pts) with
+        | Compile.Ok (new, gi, hi) => Compile.Ok (map (SS.T SS.ex_tbl) (pts ++ new), gi, hi)
+        | Compile.Err e => Compile.Err e
+        end).
+Proof.
+  pose proof SS.select_flow_hyps_sat as H. cbv zeta in H.
+  destruct H as (H1 & _ & _ & H4 & _ & H6 & _ & H8 & _).
+  exact (conj H1 (conj H4 (conj (H6 1%nat 2%nat eq_refl eq_refl) H8))).
+Qed.
